@@ -154,16 +154,14 @@ impl MT101 {
                         ordering = parser
                             .parse_optional_variant_field::<Field50OrderingCustomerFGH>("50")?;
                     }
-                    _ => {
-                        // Unknown variant - try instructing party first, then ordering customer
-                        if let Ok(Some(field)) =
-                            parser.parse_optional_variant_field::<Field50InstructingParty>("50")
-                        {
-                            instructing = Some(field);
-                        } else {
-                            ordering = parser
-                                .parse_optional_variant_field::<Field50OrderingCustomerFGH>("50")?;
-                        }
+                    other => {
+                        // Not an option of field 50 in MT101
+                        return Err(crate::errors::ParseError::InvalidFormat {
+                            message: format!(
+                                "MT101: field 50{} is not a valid option (expected C, L, F, G or H)",
+                                other
+                            ),
+                        });
                     }
                 }
             }
